@@ -145,10 +145,10 @@ def run(ctx):
     comps_t = gen.COMPS
     sl = shape_list(ctx)
     for (name, cfg, entries) in sl:
-        run_shape(ctx, b, name, cfg, entries, nprobe=300 if ctx.quick() else 3000, comps=("none",))
+        run_shape(ctx, b, name, cfg, entries, nprobe=300 if ctx.quick() else 2200, comps=("none",))
         if not ctx.quick():
             # the other compression types change how a block is loaded, not where the iterator goes: fewer probes each
-            run_shape(ctx, b, name, cfg, entries, nprobe=700, comps=[c for c in comps_t if c != "none"])
+            run_shape(ctx, b, name, cfg, entries, nprobe=500, comps=[c for c in comps_t if c != "none"])
     # the same histories on a table that starts beyond 4 GiB in a sparse file (block positions need 64 bits on every path)
     for (name, cfg, entries) in ([sl[0]] if ctx.quick() else sl[:3]):
         run_shape(ctx, b, name + "_far", dict(cfg, prefix=(1 << 32) + 4096 + 13, sparse=True), entries, nprobe=150 if ctx.quick() else 1000)
